@@ -25,7 +25,7 @@ F = "DecFileParser.print_decay_modes"
 
 
 def run(ctx, ss):
-    for r, f in (("C16.1", c16_1), ("C16.3", c16_3), ("C16.4", c16_4), ("C16.5", c16_5), ("C16.6", c16_6), ("C16.7", c16_7), ("C16.8", c16_8), ("C16.3", c16_9)):
+    for r, f in (("C16.1", c16_1), ("C16.3", c16_3), ("C16.4", c16_4), ("C16.5", c16_5), ("C16.5", c16_5b), ("C16.6", c16_6), ("C16.7", c16_7), ("C16.8", c16_8), ("C16.3", c16_9)):
         ctx.guard(r, f, ss)
     from .c01 import details_fields
     ctx.guard("C16.9", details_fields, ss, "C16.9")
@@ -314,6 +314,39 @@ def c16_5(ctx, ss):
                                                   "normalize ⇒ norm = Σ of all branching fractions" if ok else f"normalisation sum is conditional / partial: {conds} {txt(v)[:60]}")
 
 
+def c16_5b(ctx, ss):
+    """which divisor under which option: Σ bf iff normalize; largest/scale iff (not normalize and a scale is given); else 1"""
+    from .common import guarded_values
+    ff, flow = fn(ss, DEC, F)
+    NORM = _norm_name(ff, flow)
+    nd = [d for d in flow.defs if d.name == NORM and d.kind == "assign"]
+    k = ckey(ff, None, "norm:options")
+    bad = []
+    seen = set()
+    for conds, v in guarded_values(ff, flow, nd):
+        e = flow.expand(v)
+        cs = set(conds)
+        if isinstance(e, ast.Call) and txt(e.func) == "sum":
+            seen.add("sum")
+            if cs != {("normalize", True)}:
+                bad.append(("Σ bf", conds))
+        elif isinstance(e, ast.Constant) and e.value in (1, 1.0):
+            seen.add("one")
+            if cs not in (set(), {("normalize", False), ("scale is None", True)}):
+                bad.append(("1", conds))
+        elif isinstance(e, ast.BinOp) and isinstance(e.op, ast.Div) and flow.is_identity_of(e.right, "scale"):
+            seen.add("scale")
+            if cs != {("normalize", False), ("scale is None", False)}:
+                bad.append(("largest / scale", conds))
+        else:
+            bad.append((txt(e)[:40], conds))
+    if bad or seen != {"sum", "one", "scale"}:
+        ctx.violation("C16.5", k, where(ff, nd[0].stmt if nd else ff.node),
+                      f"the divisor `{bad[0][0]}` is used under {bad[0][1]}" if bad else f"divisor alternatives are {sorted(seen)}, expected Σ bf / largest÷scale / 1")
+    else:
+        ctx.holds("C16.5", k, where(ff, nd[0].stmt), "Σ bf iff normalize; largest/scale iff a scale is given without normalize; 1 otherwise", 3)
+
+
 def c16_6(ctx, ss):
     ff, flow = fn(ss, DEC, F)
     calls = [c for c in pf.calls_in(ff.node) if txt(c.func) == "self._decay_mode_details"]
@@ -411,9 +444,18 @@ def c16_9(ctx, ss):
     if col is not None:
         e = col
         if isinstance(e, ast.IfExp):
-            # '' when the list is empty, the join otherwise (either arm order)
-            arms = [(e.body, e.orelse), (e.orelse, e.body)]
-            for empty_arm, join_arm in arms:
+            # '' exactly when the list is empty, the join otherwise (either arm order; the test decides which)
+            atoms = guards.canon_cond(e.test, True)
+            empty_when_true = None
+            if len(atoms) == 1:
+                a0, p0_ = atoms[0]
+                if params_seq(a0):
+                    empty_when_true = not p0_                # `if L` true -> non-empty
+                elif isinstance(a0, ast.Compare) and isinstance(a0.ops[0], ast.Eq) and params_seq(a0.left) and isinstance(a0.comparators[0], (ast.List, ast.Tuple)) \
+                        and not a0.comparators[0].elts:
+                    empty_when_true = p0_                    # `L == []`
+            if empty_when_true is not None:
+                empty_arm, join_arm = (e.body, e.orelse) if empty_when_true else (e.orelse, e.body)
                 if isinstance(empty_arm, ast.Constant) and empty_arm.value == "" and joined(join_arm):
                     okp = okj = True
         elif joined(e):
